@@ -372,4 +372,4 @@ PROP = Prop(
                  "tie-free dichotomy and are skipped, counted under label near-tie-skipped"],
 )
 
-RULE_EXTRA = ('score containers float64 / float32 / lists / mixed-dtype classes; fine score scale 1e-6. Scores held in int8/int16 at both ends of the type, byte-swapped arrays; large_n also with disjoint class ranges (either way round) and with one array object as both classes.')
+RULE_EXTRA = ('score containers float64 / float32 / lists / mixed-dtype classes; fine score scale 1e-6. Scores held in int8/int16 at both ends of the type, byte-swapped arrays; large_n also with disjoint class ranges (either way round) and with one array object as both classes. The source object is checked again after a sample was drawn from it.')
